@@ -11,7 +11,7 @@
      hist_inv st0 st log  occupancy(st) = occupancy(st0) + exactly the accepted ranges of log,
                           every accepted slot was FREE initially, no two accepted entries share a slot of an OMS *)
 From Verif Require Import Prelude Model.Spectrum.
-From Verif Require Import Proofs.SpectrumBase Proofs.Spectrum Proofs.Spectrum2 Proofs.Spectrum3 Proofs.Spectrum4 Proofs.Spectrum5.
+From Verif Require Import Proofs.SpectrumBase Proofs.Spectrum Proofs.Spectrum2 Proofs.Spectrum3 Proofs.Spectrum4 Proofs.Spectrum5 Proofs.Spectrum6.
 From Coq Require Import Permutation Lia.
 Open Scope Z_scope.
 
@@ -62,6 +62,15 @@ Theorem C14_commit_never_raises : forall d r nb sel ids st,
 Proof. exact commit_defined. Qed.
 Print Assumptions C14_commit_never_raises.
 
+(* On well-formed states, with positive user M values and a positive spacing, serving a request never raises:
+   no SpectrumError / ValueError / IndexError, and the model's loop fuel always suffices. *)
+Theorem C14_never_raises : forall d p st rq,
+  WFst d st -> valid_ids st (path_oms rq) -> path_oms rq <> [] ->
+  0 < rq_pcm rq -> Forall slot_pos (slots rq) ->
+  exists r, pth_assign_one p st rq = Ok r.
+Proof. exact pth_assign_one_total. Qed.
+Print Assumptions C14_never_raises.
+
 (* ---- non-vacuity: a concrete two-OMS network and a history with accepted, blocked and multi-slot requests *)
 Definition ex_b (c : list slot) : bitmap := mkB (-8) 8 (-6) 6 2 (zrange (-8) 9) c.
 Definition ex_st : state :=
@@ -78,6 +87,9 @@ Proof.
   - repeat constructor; cbn; lia.
   - repeat constructor; cbn; lia.
 Qed.
+
+Example ex_hyps_total : Forall (fun rq => path_oms rq <> [] /\ 0 < rq_pcm rq /\ Forall slot_pos (slots rq)) ex_rqs.
+Proof. repeat constructor; cbn; try discriminate; try lia. Qed.
 
 Example ex_run :
   exists st', run FirstFit ex_st ex_rqs =
